@@ -292,7 +292,14 @@ func evalC11(c *Ctx, cs EnumCase) EnumResult {
 			// a success is only legal after the log write and the required acknowledgements
 			needed := k.required()
 			if k.LeaderDisk != "" {
-				add("succeeded-without-own-log-write", fmt.Sprintf("reported SUCCED although every write to the leader's own log has failed since the request was made (the %d follower acknowledgements alone filled the counter of %d)", k.Followers, needed))
+				// the recorded finding is ONE root cause: the followers' acknowledgements alone fill the counter
+				// (majority mode, as many followers as the counter asks for). Where the counter cannot be filled
+				// without the leader's own write, a SUCCED means the failed write was counted: another signature.
+				sig := "succeeded-without-own-log-write"
+				if k.Followers >= needed {
+					sig += "/followers-fill-counter"
+				}
+				add(sig, fmt.Sprintf("reported SUCCED although every write to the leader's own log has failed since the request was made (the %d follower acknowledgements alone filled the counter of %d)", k.Followers, needed))
 			} else if !expectOK && !either {
 				add("succeeded-without-quorum", fmt.Sprintf("reported SUCCED although only %d of the %d required acknowledgements (log write included) can have arrived", acks, needed))
 			} else if lateNeeded && early < needed && got.Lock != nil {
